@@ -100,6 +100,46 @@ def program_cases(rng, n_valid, n_typed, n_mut, exhaustive_len):
         trip = [list(g), list(c), list(p)]
         trip[k], kind = G.mutate(rng, trip[k])
         cases.append((f'V {G.hexs(trip[0])} {G.hexs(trip[1])} {G.hexs(trip[2])}', 'mutant:' + 'gcp'[k] + ':' + kind))
+    # cross-phase programs: one type-directed program cut into gamma | claim | proof (a correct checker clears the stack
+    # between phases, so later parts must not be able to consume what earlier parts left behind)
+    for _ in range(n_typed // 2):
+        prog = G.gen_typed_prog(rng, length=rng.randrange(4, 30))
+        cuts = sorted(rng.randrange(0, len(prog) + 1) for _ in range(2))
+        g, c, p = prog[:cuts[0]], prog[cuts[0]:cuts[1]], prog[cuts[1]:]
+        cases.append((f'V {G.hexs(g)} {G.hexs(c)} {G.hexs(p)}', 'crossphase'))
+    for _ in range(n_valid // 4):
+        g, c, p = rng.choice(valid) if valid else ([], [], [])
+        extra = G.build(G.gen_pat(rng, 1, 3))
+        k = rng.randrange(3)
+        if k == 0:
+            cases.append((f'V {G.hexs(list(g) + extra)} {G.hexs(c)} {G.hexs(list(p) + [G.POP])}', 'residue:gamma->proof'))
+        elif k == 1:
+            cases.append((f'V {G.hexs(g)} {G.hexs(list(c) + extra)} {G.hexs([G.POP] + list(p))}', 'residue:claim->proof'))
+        else:
+            cases.append((f'V {G.hexs(list(g) + extra)} {G.hexs([G.PUBLISH] + list(c))} {G.hexs(p)}', 'residue:gamma->claim'))
+    # Mu over meta-patterns: the positivity judgement on constrained metavariables and pending substitutions decides acceptance
+    for _ in range(n_typed // 2):
+        q = G.gen_pat(rng, rng.choice([1, 2, 3]), names=3)
+        X = rng.randrange(3)
+        ph = rng.choice('GCP')
+        cases.append((f'E {ph} {G.hexs(G.build(q) + [G.MU, X])}', 'mu-over-meta'))
+        if rng.random() < 0.5:
+            # the same body in a negative position
+            cases.append((f'E {ph} {G.hexs(G.build(q) + G.build(G.BOT) + [G.IMP, G.MU, X])}', 'mu-over-meta-neg'))
+    # pending substitutions over constrained metavariables under Mu, in positive and negative position
+    for _ in range(n_typed // 2):
+        X, Y = rng.randrange(3), rng.randrange(3)
+
+        def lst():
+            return tuple(sorted(set(rng.choice([X, Y, rng.randrange(3)]) for _ in range(rng.randrange(0, 3)))))
+        mv = ('MVar', rng.randrange(3), (), lst() if rng.random() < 0.3 else (), lst(), lst(), ())
+        plug = rng.choice([('SVar', X), ('Imp', ('SVar', X), G.BOT), ('App', ('SVar', X), ('Sym', 0)), ('SVar', Y), ('Sym', 1),
+                           ('Imp', ('Imp', ('SVar', X), G.BOT), G.BOT), ('Mu', X, ('SVar', X))])
+        head = ('SSub', mv, Y, plug) if rng.random() < 0.7 else ('ESub', mv, rng.randrange(3), plug)
+        if rng.random() < 0.3:
+            head = ('SSub', head, rng.randrange(3), rng.choice([('SVar', X), ('Sym', 0)]))
+        body = rng.choice([head, ('Imp', head, G.BOT), ('Imp', ('Imp', head, G.BOT), G.BOT), ('App', head, ('SVar', X)), ('Imp', head, ('SVar', X))])
+        cases.append((f'E P {G.hexs(G.build(body) + [G.MU, X])}', 'mu-over-subst'))
     # exhaustive short programs over the opcode alphabet + operand bytes {0,1,2,255}
     alpha = sorted(set(G.ALL_OPS + [0, 1, 31, 32, 136, 138, 255]))
     for L in range(0, exhaustive_len + 1):
@@ -147,7 +187,9 @@ def adversarial_cases(rng, n):
         elif fam == 3:
             # Quantifier axiom with phi0 := pattern binding the plug variable
             body = rng.choice([('Ex', 1, ('EVar', 0)), ('EVar', 0), ('Mu', 0, ('App', ('SVar', 0), ('EVar', 0))),
-                               ('Ex', 0, ('EVar', 0)), ('App', ('EVar', 0), ('EVar', 1))])
+                               ('Ex', 0, ('EVar', 0)), ('App', ('EVar', 0), ('EVar', 1)),
+                               ('Imp', ('Ex', 0, ('EVar', 0)), ('Sym', 0)), ('Imp', ('Ex', 1, ('EVar', 0)), ('Sym', 0))]
+                              + [G.gen_pat(rng, 2, 2, meta=False) for _ in range(6)])
             prog = G.build(body) + [G.QUANT, G.INST, 1, 0]
             out.append((f'E P {G.hexs(prog)}', 'adv:quantifier-inst'))
         elif fam == 4:
@@ -159,10 +201,23 @@ def adversarial_cases(rng, n):
             plug = rng.choice([('App', ('EVar', x), ('EVar', x)), ('App', ('EVar', x), ('Sym', 0)), ('Ex', (x + 1) % names, ('EVar', x)),
                                ('EVar', (x + 1) % names), ('Imp', ('EVar', x), G.BOT)])
             y = rng.choice([x, (x + 1) % names])
-            E = ('ESub', G.phi(0), y, plug)
-            inst_to = rng.choice([('EVar', y), ('App', ('EVar', y), ('EVar', y)), ('Sym', 1), ('Ex', x, ('EVar', y))])
-            prog = G.build(inst_to) + G.prog_imp_refl(E) + [G.GEN, x, G.INST, 1, 0]
-            out.append((f'E P {G.hexs(prog)}', 'adv:esubst-general-plug-gen-inst'))
+            ef = tuple(sorted(set(rng.choice([x, y]) for _ in range(rng.randrange(0, 2)))))
+            mv = ('MVar', 0, ef, (), (), (), ())
+            if rng.random() < 0.5:
+                E = ('ESub', mv, y, plug)
+                inst_to = rng.choice([('EVar', y), ('App', ('EVar', y), ('EVar', y)), ('Sym', 1), ('Ex', x, ('EVar', y))])
+            else:
+                E = ('SSub', mv, X, plug)
+                inst_to = rng.choice([('SVar', X), ('App', ('SVar', X), ('SVar', X)), ('Sym', 1), ('Mu', X, ('SVar', X))])
+            shape = rng.randrange(3)
+            if shape == 0:
+                prog = G.build(inst_to) + G.prog_imp_refl(E) + [G.GEN, x, G.INST, 1, 0]
+            elif shape == 1:
+                # prop1[E, s0]; Gen x; resolve; then detach with Existence (|- exists x0. x0) when x = 0
+                prog = G.build(inst_to) + G.inst_axiom(G.PROP1, [E, ('Sym', 0)]) + [G.GEN, x, G.INST, 1, 0, G.EXISTENCE, G.MP]
+            else:
+                prog = G.build(inst_to) + G.inst_axiom(G.PROP1, [('Sym', 0), E]) + [G.INST, 1, 0]
+            out.append((f'E P {G.hexs(prog)}', 'adv:pending-subst-gen-inst'))
         elif fam == 6:
             # constraint lists (s_fresh / positive / negative) with a violating or respecting plug
             which = rng.randrange(3)
